@@ -293,7 +293,9 @@ def audit_tokens(modules):
 
 def audit_axioms(module, theorems):
     """Returns {theorem: [axioms]} using `#print axioms`; missing theorem -> None."""
-    body = "import %s\n" % module + "".join("#print axioms %s\n" % t for t in theorems)
+    mods = [module] if isinstance(module, str) else list(module)
+    module = mods[0]
+    body = "".join("import %s\n" % m for m in mods) + "".join("#print axioms %s\n" % t for t in theorems)
     path = os.path.join(BUILD, "audit-%s-%d.lean" % (module.replace(".", "_"), os.getpid()))
     os.makedirs(BUILD, exist_ok=True)
     open(path, "w").write(body)
@@ -395,8 +397,11 @@ class Ctx:
             self.proof_broken(module, "lake build failed: " + first, out[-6000:])
             return False
         mods = lean_modules_of(module)
+        for et in extra_targets:
+            if et.startswith("ZwVerif."):
+                mods += [m for m in lean_modules_of(et) if m not in mods]
         bad = audit_tokens(mods)
-        ax, txt = audit_axioms(module, theorems)
+        ax, txt = audit_axioms([module] + [e for e in extra_targets if e.startswith("ZwVerif.")], theorems)
         allok = True
         axrep = {}
         for t in theorems:
